@@ -74,7 +74,7 @@ func (w *World) c05Cases(full bool) []c05Case {
 	toks := []bv{{"T0", w.TokenT0.Bytes()}, {"unknown", nb(32, 77)}, {"31B", nb(31, 1)}}
 	doms := []uint32{1, 2, 3, 1313817164, 1196573006}
 	rcps := []bv{{"32B", nb(32, 5)}, {"31B", nb(31, 5)}}
-	hooks := []bv{{"none", nil}, {"H0", w.HookH0.Bytes()}, {"unknown32", nb(32, 66)}, {"5B", nb(5, 1)}}
+	hooks := []bv{{"none", nil}, {"H0", w.HookH0.Bytes()}, {"unknown32", nb(32, 66)}, {"5B", nb(5, 1)}, {"zero32", make([]byte, 32)}}
 	gases := []string{"", "0", "1", maxUint256Str, "-1"}
 	fees := []string{"", "0uusdc", "1uusdc", "1uother", `{"denom":"!!","amount":"1"}`, `{"denom":"uusdc","amount":"-1"}`}
 	metas := []string{"", "0x", "0xabcd", "abcd", "0xzz"}
